@@ -217,4 +217,22 @@ def selectSheets {β} (sheets : List (Str × β)) : List (Str × β) :=
 def processRowFlat (hdr : Str → Str) (row : List (Str × Str)) : List (Str × Str) :=
   row.foldl (fun acc (h, v) => setKey (hdr h) v acc) []
 
+/-! ### header stage: raw sheet ↦ rows keyed by canonical flattened column names -/
+
+/-- canonical flattened column key of a raw header: its token tuple joined by `::` (the key format of
+    `Pyxv.Rows`: `bind::relevant`, `label::fr`, …); `none` when `process_header` raises -/
+def canonKey (T : HeaderTables) (d : Bool) (h : Str) : Option Str :=
+  match processHeader T d h with
+  | .ok r => some (joinWith [':', ':'] r.tokens)
+  | .error _ => none
+
+/-- one raw row (cell values aligned with the header row; `[]` = empty cell) as canonical cells -/
+def stageRow (T : HeaderTables) (d : Bool) (hs : List Str) (vals : List Str) : List (Str × Str) :=
+  (hs.zip vals).filterMap fun p => if p.2 = [] then none else (canonKey T d p.1).map fun k => (k, p.2)
+
+/-- **header stage** (`dealias_and_group_headers` seen from the row loop): raw sheet (header row + rows
+    of cell values) ↦ the rows `Rows.formOut` reads -/
+def headerStage (T : HeaderTables) (d : Bool) (hs : List Str) (rows : List (List Str)) : List (List (Str × Str)) :=
+  rows.map (stageRow T d hs)
+
 end Pyxv.Spell
